@@ -257,6 +257,14 @@ def aggregate(prop, mod, args, seed, results, open_f, findings, t0):
             continue
         seen_msgs.add(key)
         new_viol.append((wfile, msg, src))
+    classes = {}
+    for wfile, msg, src in violations:
+        key = "%s: %s" % (wfile["obligation"], (msg or "")[:160])
+        classes.setdefault(key, [0, wfile["params"], wfile["witness"]])
+        classes[key][0] += 1
+    if os.environ.get("VERIF_SHOW_CLASSES"):
+        for kk, (n, pp, ww) in sorted(classes.items(), key=lambda kv: -kv[1][0]):
+            print("CLASS x%d %s\n      params=%s witness=%s" % (n, kk, json.dumps(pp), json.dumps(ww)[:300]))
     os.makedirs(os.path.join(VERIF, "replays"), exist_ok=True)
     for line in known_lines:
         print(line)
